@@ -19,6 +19,8 @@ RULE = (
     '  Added: new data that kept non-default index labels or stores its factors as pandas categoricals, unseen '
     'values extending a training level, designs with explicit levels= (C / T / S, also as grouping factor), an '
     'object column mixing integer ids with a text value; expectations come from a separate reference design. '
+    "Later: separate Config objects, a 9 x 8 crossed grouping factor, each term's block read through the "
+    'result. '
 )
 ASSUMPTIONS = [
     "behaviour of unseen *groups* in 'error' mode is not demanded",
